@@ -16,12 +16,12 @@ KERNELS = {
     # kernel: list of required index-expression strings (canonical)
     's2ulaw_array': ['ulaw_encode[(ptr[i] / 4)]', '(127 & ulaw_encode[(ptr[i] / -4)])'],
     'i2ulaw_array': ['ulaw_encode[8191]', 'ulaw_encode[(ptr[i] >> 18)]', '(127 & ulaw_encode[(-ptr[i] >> 18)])'],
-    'f2ulaw_array': ['ulaw_encode[psf_lrintf((normfact * ptr[i]))]', '(127 & ulaw_encode[-psf_lrintf((normfact * ptr[i]))])'],
-    'd2ulaw_array': ['ulaw_encode[psf_lrint((normfact * ptr[i]))]', '(127 & ulaw_encode[-psf_lrint((normfact * ptr[i]))])'],
+    'f2ulaw_array': ['ulaw_encode[R((normfact * ptr[i]))]', '(127 & ulaw_encode[-R((normfact * ptr[i]))])'],
+    'd2ulaw_array': ['ulaw_encode[R((normfact * ptr[i]))]', '(127 & ulaw_encode[-R((normfact * ptr[i]))])'],
     's2alaw_array': ['alaw_encode[(ptr[i] / 16)]', '(127 & alaw_encode[(ptr[i] / -16)])'],
     'i2alaw_array': ['alaw_encode[2047]', 'alaw_encode[(ptr[i] >> 20)]', '(127 & alaw_encode[(-ptr[i] >> 20)])'],
-    'f2alaw_array': ['alaw_encode[psf_lrintf((normfact * ptr[i]))]', '(127 & alaw_encode[-psf_lrintf((normfact * ptr[i]))])'],
-    'd2alaw_array': ['alaw_encode[psf_lrint((normfact * ptr[i]))]', '(127 & alaw_encode[-psf_lrint((normfact * ptr[i]))])'],
+    'f2alaw_array': ['alaw_encode[R((normfact * ptr[i]))]', '(127 & alaw_encode[-R((normfact * ptr[i]))])'],
+    'd2alaw_array': ['alaw_encode[R((normfact * ptr[i]))]', '(127 & alaw_encode[-R((normfact * ptr[i]))])'],
     'ulaw2s_array': ['ulaw_decode[buffer[i]]'], 'ulaw2i_array': ['(ulaw_decode[buffer[i]] << 16)'], 'ulaw2f_array': ['(normfact * ulaw_decode[buffer[i]])'], 'ulaw2d_array': ['(normfact * ulaw_decode[buffer[i]])'],
     'alaw2s_array': ['alaw_decode[buffer[i]]'], 'alaw2i_array': ['(alaw_decode[buffer[i]] << 16)'], 'alaw2f_array': ['(normfact * alaw_decode[buffer[i]])'], 'alaw2d_array': ['(normfact * alaw_decode[buffer[i]])'],
 }
@@ -32,13 +32,28 @@ def g711_kernels(ctx, prog):
     for name, req in KERNELS.items():
         f = prog.fn(name)
         have = set()
+        def canon(t):
+            # the rounding step R is psf_lrint / psf_lrintf or the saturating helper <law>_index (whose body is checked below);
+            # negating the magnitude before or after rounding is the same value (round-half-even is symmetric)
+            for r_ in ('ulaw_index(', 'alaw_index(', 'psf_lrintf(', 'psf_lrint('):
+                t = t.replace(r_, 'R(')
+            return t.replace('R((-normfact * ptr[i]))', '-R((normfact * ptr[i]))')
         for n in f.walk():
             if n['k'] in ('ArraySubscriptExpr', 'BinaryOperator'):
-                have.add(f.s(n))
+                have.add(canon(f.s(n)))
         miss = [r for r in req if r not in have]
         # every subscript of a G.711 table in the kernel must be one of the required forms
         extra = [f.s(n) for n in f.walk() if n['k'] == 'ArraySubscriptExpr' and f.s(n['kids'][0]) in ('ulaw_encode', 'alaw_encode', 'ulaw_decode', 'alaw_decode')
-                 and not any(f.s(n) in r for r in req)]
+                 and not any(canon(f.s(n)) in r for r in req)]
+        for c_ in f.calls():
+            if c_.get('callee') in ('ulaw_index', 'alaw_index'):
+                h = prog.fn(c_['callee'])
+                par = h.params[0]['n']
+                rounds = [x for x in h.calls() if x.get('callee') in ('psf_lrint', 'psf_lrintf') and h.s(h.unwrap(h.args(x)[0])) == par]
+                arith = [h.s(x) for x in h.walk() if x['k'] == 'BinaryOperator' and x.get('op') in ('*', '/', '+', '-', '<<', '>>')]
+                ctx.ob('G711-KERNEL', '%s:%s' % (name, c_['callee']), len(rounds) == 1 and not arith, h.loc(h.body), 'the saturating helper rounds its argument once with psf_lrint and does no arithmetic on it' if len(rounds) == 1 and not arith
+                       else 'the helper %s does not simply round its argument (roundings of the parameter: %d, arithmetic: %s)' % (c_['callee'], len(rounds), arith[:3]), None)
+                break
         ctx.ob('G711-KERNEL', name, not miss and not extra, f.loc(f.body), 'index expressions as documented' if not miss and not extra else 'missing %s; unexpected %s' % (miss, extra), None)
         # encoders: G.711 codes carry the sign in bit 7 (set = positive); every store made for a negative input clears it with `0x7F &`,
         # every store for a non-negative input leaves the table code as it is
@@ -194,3 +209,6 @@ def run(ctx):
             ctx.ob('STEP-WIDTH', '%s:%s' % (fn_.name, v), ok, fn_.loc(fn_.body), 'accumulator `%s` of step shifts has type %s%s' % (v, locs_[v], '' if ok else ' — too narrow for step + step/2 + step/4 + step/8 (up to 61438)'), None)
     ctx.require(nsw >= 4, 'only %d step accumulators found in the IMA coders' % nsw)
 
+
+    from engine.run import borrow
+    borrow(ctx, 'C03', ['TABLE-INDEX'], 'a codec kernel that indexes its table outside [0, N) does not compute the published function for that input (and reads foreign memory)')
